@@ -324,8 +324,8 @@ def ob_slice_provenance(ctx, res):
             if x.k == "assign" and up(strip(x["l"])) in ("self.start_cursor", "self.end_cursor"):
                 n += 1
                 r = up(strip(x["r"]))
-                ok = r in ("self.start_cursor", "self.end_cursor", "self.data.len()", "index") or re.fullmatch(r"(\w+) \+ self\.start_cursor|self\.start_cursor \+ (\w+)", r) or \
-                    re.fullmatch(r"start \+ (\w+)\.0|(\w+)\.0 \+ start", r) or re.fullmatch(r"(\w+) \+ start|start \+ (\w+)", r)
+                ok = r in ("self.start_cursor", "self.end_cursor", "self.data.len()", "index") or re.fullmatch(r"([A-Za-z_]\w*) \+ self\.start_cursor|self\.start_cursor \+ ([A-Za-z_]\w*)", r) or \
+                    re.fullmatch(r"start \+ ([A-Za-z_]\w*)\.0|([A-Za-z_]\w*)\.0 \+ start", r) or re.fullmatch(r"([A-Za-z_]\w*) \+ start|start \+ ([A-Za-z_]\w*)", r)
                 if not ok:
                     res.fail("cursor/%s" % fn.name, x, "cursor assigned `%s`: not a char_indices position, the data length or another cursor" % r)
     res.count("slice_and_cursor_sites", n)
